@@ -176,4 +176,17 @@ CONF["C18"] = {
     "assumptions": ["component rules as summarised in the property text; FIT profile numbers session=18 lap=19 record=20 event=21 segment_lap=142, sport_point=33, front/rear gear change=42/43"],
 }
 
+CONF["C17"] = {
+    "pkg": "c17",
+    "level": "exploration",
+    "exhaustive_claim": True,
+    "technique": "exhaustive enumeration of the 32-bit domains (thorough: all 2^32 semicircles for both coordinate types and all 2^32 second counts; quick: every 257th plus boundaries) against closed-form arithmetic",
+    "level_text": "The property quantifies over finite 32-bit domains, so the thorough tier enumerates them completely through the public constructors and methods (and the hook's time conversion pair) against closed-form oracles: validity, Semicircles, exact Degrees, degrees round trip within one semicircle, printed form within 2e-5, time bijection, monotonicity, IsBaseTime. The quick tier samples every 257th value plus all boundaries. A few values also go through Encode/Decode as fields.",
+    "level_note": "Trusted: float64 arithmetic s*180/2^31 is exact (39 significant bits); the hook exports decodeDateTime/encodeTime unchanged. Latitude exactly +90 degrees (2^30 semicircles) is not decided: property text says outside +-90, documentation and an existing unit test exclude it (counted as undecided).",
+    "quick": {"checks": 1, "timeout": 300},
+    "thorough": {"checks": 1, "timeout": 3000},
+    "rule": "each enumerated 32-bit value is a distinct case and counted non-trivial (every value exercises validity + conversion); quick: stride 257 over each of the three spaces plus +-3 around 0, +-2^30, 2^31, the sentinel 0x7FFFFFFF, 2^29, 2^32-1, 0x10000000; thorough: every value, printed form included.",
+    "assumptions": ["closed-form oracles as stated in the property"],
+}
+
 NOT_APPLICABLE = {}
